@@ -442,13 +442,13 @@ def check_genseq_file(case):
                 if k >= 2:
                     conn_opts += [[f"{i}:{i + 1}:{sizes[i] - 1}-0"] for i in range(k - 1)]
                     conn_opts.append([f"0:1:0-{sizes[1] - 1},{sizes[0] - 1}-0"])
-                for connects in conn_opts:
+                for connects, (mods, tags) in itertools.product(conn_opts, (([], []), (["0:TER"], [f"{k - 1}:lab:q-1.0"]))):
                     evals += 1
-                    case1 = dict(kind="genseqfile1", seq=list(seq), connects=connects)
+                    case1 = dict(kind="genseqfile1", seq=list(seq), connects=connects, mods=mods, tags=tags)
                     out = d / "seq.json"
                     try:
                         gen_seq(name="m", outpath=out, seq=list(seq), inpath=[d / "in.itp"], from_file=["F1:M", "F2:TRI"],
-                                macro_strings=["X:2:1:PEO-1.0"], connects=connects)
+                                macro_strings=["X:2:1:PEO-1.0"], connects=connects, modifications=mods, tags=tags)
                         mm = MetaMolecule.from_sequence_file(None, out, "mol")
                     except Exception as exc:  # noqa
                         viols.append(crash_violation(exc, case1, assertion="gen_seq-output-readable"))
@@ -463,14 +463,28 @@ def check_genseq_file(case):
                         for ab in abs_.split(","):
                             a, b = ab.split("-")
                             edges.add(frozenset((off[int(i)] + int(a), off[int(j)] + int(b))))
+                    if mods:
+                        # terminal renaming: residues of block 0 with exactly one neighbour in the whole sequence graph
+                        deg = {i: 0 for i in range(len(names))}
+                        for e in edges:
+                            for x in e:
+                                deg[x] += 1
+                        for i in range(off[0], off[0] + sizes[0]):
+                            if deg[i] == 1:
+                                names[i] = "TER"
+                    labelled = set(range(off[k - 1], off[k - 1] + sizes[k - 1])) if tags else set()
                     got_nodes = [(kk, mm.nodes[kk].get("resname"), mm.nodes[kk].get("resid")) for kk in mm.nodes]
                     want_nodes = [(i, names[i], i + 1) for i in range(len(names))]
                     got_edges = {frozenset(e) for e in mm.edges}
+                    got_lab = {kk for kk in mm.nodes if mm.nodes[kk].get("lab") == "q"}
+                    if got_lab != labelled and len(viols) < 20:
+                        viols.append(dict(assertion="gen_seq-graph-as-specified", tags=["from_file", "labels"],
+                                          message=f"seq {seq} connects {connects} tags {tags}: labelled {sorted(got_lab)} expected {sorted(labelled)}", case=case1, detail={}))
                     if (got_nodes != want_nodes or got_edges != edges) and len(viols) < 20:
                         viols.append(dict(assertion="gen_seq-graph-as-specified", tags=["from_file"],
-                                          message=f"seq {seq} connects {connects}: nodes {got_nodes} expected {want_nodes}; edges {sorted(map(sorted, got_edges))} expected {sorted(map(sorted, edges))}",
+                                          message=f"seq {seq} connects {connects} mods {mods}: nodes {got_nodes} expected {want_nodes}; edges {sorted(map(sorted, got_edges))} expected {sorted(map(sorted, edges))}",
                                           case=case1, detail={}))
-                    keys.append(json.dumps(["file", seq, connects]))
+                    keys.append(json.dumps(["file", seq, connects, mods, tags]))
     return viols, evals, keys
 
 
